@@ -20,6 +20,8 @@ class Ctx:
         self.extra = {}
         self._progs = {}
         self.precision = {"strong": 0, "weak": 0}
+        self.default_cfg = ("blst", "dev")
+        self.key_prefix = ""
 
     # ---- programs --------------------------------------------------------
     def prog(self, backend="blst", profile="dev"):
@@ -34,14 +36,14 @@ class Ctx:
 
     @property
     def P(self):
-        return self.prog()
+        return self.prog(*self.default_cfg)
 
     # ---- obligations -----------------------------------------------------
     def ob(self, rule, key, ok, detail="", where=None, sample=None, weak=False):
         """Record one decided obligation. key identifies the construct without line numbers."""
         o = {
             "rule": rule,
-            "key": "%s/%s" % (rule, key),
+            "key": "%s%s/%s" % (self.key_prefix, rule, key),
             "ok": bool(ok),
             "detail": detail,
         }
@@ -112,7 +114,7 @@ def finish(ctx, explanation, rule_text, level="other"):
             continue
         seen_known.add(o["key"])
         print("KNOWN-FINDING: property=%s %s [%s]" % (ctx.prop, known_keys[o["key"]].get("what", o["detail"]), o["key"]))
-    ev_dir = os.path.join(VERIF, "evidence")
+    ev_dir = os.environ.get("VERIF_EVIDENCE_DIR") or os.path.join(VERIF, "evidence")
     os.makedirs(ev_dir, exist_ok=True)
     report_path = os.path.join(ev_dir, "%s.report.json" % ctx.prop)
     distinct = len({o["key"] for o in ctx.obligations})
